@@ -302,6 +302,7 @@ pub fn eval(case: &Case) -> Verdict {
     let mut peer = PeerEnc::new();
     let mut peer_ts = 0u32;
     let mut log: Vec<Concrete> = Vec::new();
+    let mut ended_by_error = false;
     let mut traces: Vec<String> = Vec::new();
     let mut refused: Vec<usize> = Vec::new();
     let mut obs = Obs::new();
@@ -713,7 +714,15 @@ pub fn eval(case: &Case) -> Verdict {
             }
         }
         traces.push(norm_obs(&o));
+        let fatal = o.err.is_some() && matches!(concrete, Concrete::Peer { .. });
         log.push(concrete);
+        if fatal {
+            // an Err from handle_input is terminal: every caller in the repository closes the
+            // connection on it (results gathered earlier in that call are lost by the API), so
+            // the history ends here
+            ended_by_error = true;
+            break;
+        }
     }
     // twin run: the same history without the refused calls must produce identical observations
     if !refused.is_empty() {
@@ -746,6 +755,8 @@ pub fn eval(case: &Case) -> Verdict {
     obs.class_if(model.streams.values().any(|s| matches!(s, St::Playing(_))), "ends-with-playing-stream");
     obs.class_if(model.streams.values().any(|s| matches!(s, St::Unspecified)), "unspecified-stream-state-reached");
     obs.class_if(!refused.is_empty(), "twin-run-compared");
+    obs.class_if(ended_by_error, "history-ended-by-handle-input-error");
+    obs.count("operations-executed", log.len() as u64);
     obs.nontrivial = model.connected && (out_of_order || forged || media_on_non_publishing);
     Verdict::Pass(obs)
 }
